@@ -123,14 +123,15 @@ KANI_UNITS["C40"] = dict(
     appends=[("crates/varpulis-core/src/value.rs", "__vpv_c40", "contracts/kani/c40.rs")],
     grade="K-complete", level="other", timeout=2400, harness_timeout=600,
     cell_grades={"c40_array_": "K-bounded(arrays of <= 2 elements, depth 1)", "_str": "K-bounded(1-character ASCII strings)"},
-    native_grade="bounded(native exhaustive enumeration: maps of <= 3 entries over 3 keys x 6 values, every insertion order, plain and nested)",
+    native_grade="bounded(native exhaustive enumeration: maps of <= 3 entries over 3 keys x 6 values in every insertion order, plain and nested; 64 maps with different key sets, all pairs and triples)",
     functions=["varpulis-core/src/value.rs: impl PartialEq for Value (eq), float_eq, impl Hash for Value (hash) — scalar and array arms (Kani), Map arm (native enumeration)"],
     explanation=("PARTIAL (scalars complete, arrays bounded, MAPS NOT DECIDED). Per scalar variant, three symbolic values with full-domain payloads: == is reflexive, symmetric, "
                  "transitive, and a == b implies that Hash::hash feeds the SAME BYTE STREAM to a recording hasher (hence equal hashes for every hasher). A cross-kind cell "
                  "shows values of different variants are never equal, which reduces mixed transitivity to the same-kind cells. The float cell pins NaN == NaN and -0.0 == 0.0 "
                  "together with their hash normalisation. Arrays: <= 2 scalar elements, depth 1 (bounded). The Map arm (building two IndexMaps inside CBMC does not finish) is covered by a BOUNDED STAND-IN run natively: every map of <= 3 "
                  "entries over 3 keys and 6 values (ints, NaN, -0.0, 0.0, a string, a nested map), in every insertion order, alone and nested in an array / another map: == is reflexive and "
-                 "symmetric and equal values have equal hashes (std DefaultHasher)."),
+                 "symmetric and equal values have equal hashes (std DefaultHasher); and over 64 maps with different key sets (each of 3 keys absent / 1 / null / NaN) == is symmetric and "
+                 "transitive and agrees with the hash."),
     assumptions=["the recording Hasher (48-byte log) observes exactly the bytes Hash::hash writes; streams longer than 48 bytes are treated as a failed obligation, never as equal"],
 )
 
